@@ -48,3 +48,18 @@ package virtualtable
 //@   site call regexp.Compile #1:
 //@     assert [wildcard-matches-whole-names] uf("startsWithCaret", bool, arg0) && uf("endsWithDollar", bool, arg0)
 //@ end
+
+// C19 (and C13): IsVirtualTablePresent is the ONLY thing between a client-chosen
+// index name and the file removals of the delete path (es/writer.deleteIndex),
+// so it answers "present" only for a name it actually found in the
+// organisation's table list; when the list cannot be read the answer is "not
+// present" (fail closed).  Ghost vtListUnreadable: the list could not be read.
+//@ ghostdecl vtListUnreadable int
+//@ func IsVirtualTablePresent
+//@   props C19 C13
+//@   requires tname != nil
+//@   ghostinit ghost(0, "vtListUnreadable") == 0
+//@   site callret GetVirtualTableNames #1:
+//@     ghostset ghost(0, "vtListUnreadable") = ite(result1 != nil, 1, 0)
+//@   ensures [not-present-when-the-table-list-cannot-be-read] implies(ghost(0, "vtListUnreadable") == 1, !result)
+//@ end
